@@ -1128,7 +1128,7 @@ class QGRUCell(GRUCell):
       if not self.reset_after:
         input_bias, recurrent_bias = quantized_bias, None
       else:
-        input_bias, recurrent_bias = array_ops.unstack(quantized_bias)
+        input_bias, recurrent_bias = tf.unstack(quantized_bias)
 
     if self.implementation == 1:
       if 0. < self.dropout < 1.:
